@@ -219,3 +219,156 @@ def regex_literal_chars(pattern: str):
 
     visit(sre.parse(pattern))
     return chars, ws
+
+
+# ---------------------------------------------------------------------------
+# constant propagation through a small straight-line string-building function
+
+
+class _Return(Exception):
+    def __init__(self, value):
+        self.value = value
+
+
+def propagate(fn, args: dict, module=None, max_steps=2000):
+    """Constant propagation through `fn` (an ast.FunctionDef) for the given
+    constant arguments: supports assignments (incl. tuple targets), if/elif/else
+    with decidable tests, for-loops over constant sequences, `x.append/extend`,
+    `dict.pop/get`, `isinstance` against builtin types, f-strings, `sep.join`,
+    tuple()/list() and return.  Raises NotConstant for anything else -- the caller
+    reports the instance as unresolved, never as a violation."""
+    env = dict(args)
+    steps = [0]
+
+    def ev(node):
+        if isinstance(node, ast.Name) and node.id in env:
+            return env[node.id]
+        if isinstance(node, ast.Constant):
+            return node.value
+        if isinstance(node, ast.JoinedStr):
+            out = []
+            for v in node.values:
+                if isinstance(v, ast.Constant):
+                    out.append(str(v.value))
+                else:
+                    out.append(str(ev(v.value)))
+            return "".join(out)
+        if isinstance(node, ast.BoolOp):
+            vals = None
+            for v in node.values:
+                vals = ev(v)
+                if isinstance(node.op, ast.And) and not vals:
+                    return vals
+                if isinstance(node.op, ast.Or) and vals:
+                    return vals
+            return vals
+        if isinstance(node, ast.UnaryOp) and isinstance(node.op, ast.Not):
+            return not ev(node.operand)
+        if isinstance(node, ast.Compare) and len(node.ops) == 1:
+            a, b = ev(node.left), ev(node.comparators[0])
+            op = node.ops[0]
+            if isinstance(op, ast.Is):
+                return a is b
+            if isinstance(op, ast.IsNot):
+                return a is not b
+            if isinstance(op, ast.Eq):
+                return a == b
+            if isinstance(op, ast.NotEq):
+                return a != b
+            if isinstance(op, ast.In):
+                return a in b
+            if isinstance(op, ast.NotIn):
+                return a not in b
+            raise NotConstant("compare")
+        if isinstance(node, ast.Call):
+            f = node.func
+            if isinstance(f, ast.Attribute):
+                if f.attr == "join" and len(node.args) == 1:
+                    return ev(f.value).join(ev(node.args[0]))
+                recv = ev(f.value)
+                a = [ev(x) for x in node.args]
+                if isinstance(recv, dict) and f.attr in ("pop", "get", "items", "keys", "values"):
+                    return getattr(recv, f.attr)(*a)
+                if isinstance(recv, list) and f.attr in ("append", "extend"):
+                    return getattr(recv, f.attr)(*a)
+                if isinstance(recv, str) and f.attr in ("lower", "upper", "strip", "format"):
+                    return getattr(recv, f.attr)(*a)
+                raise NotConstant(ast.unparse(node)[:50])
+            if isinstance(f, ast.Name):
+                if f.id == "isinstance" and len(node.args) == 2:
+                    types = {"tuple": tuple, "set": set, "list": list, "str": str, "int": int, "dict": dict}
+                    tn = node.args[1]
+                    names = [e.id for e in tn.elts] if isinstance(tn, ast.Tuple) else [tn.id]
+                    return isinstance(ev(node.args[0]), tuple(types[n] for n in names))
+                a = [ev(x) for x in node.args]
+                if f.id in ("tuple", "list", "len", "str", "sorted", "dict", "set"):
+                    return {"tuple": tuple, "list": list, "len": len, "str": str, "sorted": sorted, "dict": dict, "set": set}[f.id](*a)
+            raise NotConstant(ast.unparse(node)[:50])
+        if isinstance(node, ast.ListComp) and len(node.generators) == 1 and not node.generators[0].ifs:
+            g = node.generators[0]
+            out = []
+            for item in ev(g.iter):
+                bind(g.target, item)
+                out.append(ev(node.elt))
+            return out
+        if isinstance(node, (ast.Tuple, ast.List)):
+            vals = [ev(e) for e in node.elts]
+            return tuple(vals) if isinstance(node, ast.Tuple) else vals
+        if isinstance(node, ast.Dict):
+            return {ev(k): ev(v) for k, v in zip(node.keys, node.values)}
+        if isinstance(node, ast.BinOp) and isinstance(node.op, (ast.Add, ast.Mult, ast.Mod)):
+            a, b = ev(node.left), ev(node.right)
+            return a + b if isinstance(node.op, ast.Add) else a * b if isinstance(node.op, ast.Mult) else a % b
+        if isinstance(node, ast.IfExp):
+            return ev(node.body) if ev(node.test) else ev(node.orelse)
+        if isinstance(node, ast.Subscript) and not isinstance(node.slice, ast.Slice):
+            return ev(node.value)[ev(node.slice)]
+        raise NotConstant(f"{type(node).__name__}: {ast.unparse(node)[:50]}")
+
+    def bind(target, value):
+        if isinstance(target, ast.Name):
+            env[target.id] = value
+        elif isinstance(target, (ast.Tuple, ast.List)):
+            vals = list(value)
+            if len(vals) != len(target.elts):
+                raise NotConstant("unpack")
+            for t, v in zip(target.elts, vals):
+                bind(t, v)
+        else:
+            raise NotConstant("target")
+
+    def run(body):
+        for st in body:
+            steps[0] += 1
+            if steps[0] > max_steps:
+                raise NotConstant("too many steps")
+            if isinstance(st, ast.Expr):
+                if isinstance(st.value, ast.Constant):
+                    continue
+                ev(st.value)
+            elif isinstance(st, ast.Assign):
+                v = ev(st.value)
+                for t in st.targets:
+                    bind(t, v)
+            elif isinstance(st, ast.If):
+                run(st.body if ev(st.test) else st.orelse)
+            elif isinstance(st, ast.For):
+                for item in list(ev(st.iter)):
+                    bind(st.target, item)
+                    run(st.body)
+            elif isinstance(st, ast.Return):
+                raise _Return(ev(st.value) if st.value else None)
+            elif isinstance(st, ast.Pass):
+                pass
+            else:
+                raise NotConstant(type(st).__name__)
+
+    try:
+        run(fn.body)
+    except _Return as r:
+        return r.value
+    except NotConstant:
+        raise
+    except Exception as e:  # a concrete error inside propagation: not decidable here
+        raise NotConstant(f"{type(e).__name__}: {e}") from e
+    return None
